@@ -186,6 +186,9 @@ func (r *rewriter) rewriteFile(f *loader.File, printer FilePrinter) {
 	log.Printf("write file: %s\n", f.Filename)
 	// clear free-floating comments, preventing confusing position of comments
 	// https://github.com/golang/go/issues/20744
+	// but keep the free-floating directives in front of the package clause, e.g. //go:debug panicnil=1
+	// (the build constraints are replaced when the file is written)
+	r.comments = append(r.comments, headDirectives(f.File)...)
 	if len(r.comments) > 0 {
 		// go/printer ignores the doc comments of nodes as soon as File.Comments is set,
 		// so keep them explicitly, otherwise directives (e.g. //go:embed) get lost
